@@ -134,7 +134,7 @@ union_single!(c03_union_single_hll8, false);
 //@ endfamily: x
 
 //@ props: C03 C17
-//@ tier: quick
+//@ tier: thorough
 //@ timeout: 1800
 //@ functions: hll::union::HllUnion::update
 //@ functions: hll::union::merge_array_same_lgk
@@ -183,7 +183,7 @@ fn c03_union_pair_order_independent() {
 }
 
 //@ props: C03 C17
-//@ tier: quick
+//@ tier: thorough
 //@ timeout: 1800
 //@ functions: hll::union::HllUnion::to_sketch
 //@ functions: hll::union::convert_array8_to_type
